@@ -146,6 +146,30 @@ def determinism(rep, cd: Codecs, u, rule="codec-symmetry"):
         rep.ok(rule, f"{u.name}/determinism: writer reads only self, parameters and constants")
 
 
+def item_order(rep, cd: Codecs, u, rule="codec-symmetry"):
+    """The position of an item in its list is stored data (the writer emits list order, the reader appends in stream order):
+    neither side may sort, reverse, shuffle or de-duplicate a collection of items."""
+    from ..index import walk_no_nested
+    bad = False
+    for side, f in (("writer", u.writer), ("reader", u.reader)):
+        for c in [x for x in walk_no_nested(f.node) if isinstance(x, ast.Call)]:
+            what = None
+            fn_ = norm(c.func)
+            if isinstance(c.func, ast.Attribute) and c.func.attr in ("sort", "reverse") and not isinstance(c.func.value, ast.Call):
+                what = f"`{norm(c.func.value)}.{c.func.attr}()`"
+            elif fn_ in ("sorted", "random.shuffle", "shuffle", "set", "frozenset") and c.args and not (isinstance(c.args[0], ast.Call) and norm(c.args[0].func) == "range") \
+                    and not isinstance(c.args[0], (ast.Constant, ast.Tuple, ast.List, ast.Set)):
+                what = f"`{norm(c)[:60]}`"
+            elif fn_ == "reversed" and c.args and not (isinstance(c.args[0], ast.Call) and norm(c.args[0].func) == "range"):
+                what = f"`{norm(c)[:60]}`"
+            if what:
+                rep.fail(rule, f.module.path.name, f.qualname, c, f"[order] the {side} re-orders / de-duplicates a collection ({what}): the order of the items is stored data and no longer survives a round trip",
+                         construct=f"{f.qualname} reorders items")
+                bad = True
+    if not bad:
+        rep.ok(rule, f"{u.name}/item-order: neither side sorts, reverses or de-duplicates a collection")
+
+
 # ---------------------------------------------------------------------------------- rule 6: format guards
 def enum_of_unit(prog, u):
     """The format Enum class a unit dispatches on (from Enum(format) in the reader or members named in guards)."""
@@ -310,6 +334,7 @@ def run(prog, rep):
         nfields += un.fields
         attr_linkage(rep, cd, u)
         determinism(rep, cd, u)
+        item_order(rep, cd, u)
         format_guards(rep, cd, u)
     rep.floor("codec-symmetry/positions", nfields, 110)
     # comments / labels reach the file unaltered only if the string writer refuses what does not fit instead of cutting it
